@@ -159,7 +159,10 @@ def emit(prog, quantum=None, house="h1"):
     for f in names:
         fr = prog["framers"][f]
         first = prog["frames"][fr["first"]]["name"]
-        out.append("  framer %s be %s at %s first %s" % (f, fr["sched"], num(fr["period"], quantum), first))
+        # fr["order"] (front|mid|back) is only ever set on framers the scheduler does not run (slave / aux): the
+        # clause is legal there and must not put them on the schedule
+        out.append("  framer %s be %s at %s first %s%s" % (f, fr["sched"], num(fr["period"], quantum), first,
+                                                           " in %s" % fr["order"] if fr.get("order") else ""))
         declared = []
         for key in fr["frames"]:
             k = prog["frames"][key]
